@@ -193,6 +193,7 @@ class Ctx:
         self.failed = []            # native mode: labels of failed checks
         self._counter = {}
         self.checks = 0
+        self._patched = []
 
     symbolic = property(lambda self: self.mode == 'sym')
 
@@ -348,6 +349,21 @@ class Ctx:
         if self.mode == 'sym':
             return self.I.call(f, list(args), kwargs)
         return f(*args, **kwargs)
+
+    def patch(self, owner, name, repl):
+        """replace owner.name by repl for this scenario run: as an interpreter stub in symbolic mode
+        (the attribute itself is left alone), by setattr (restored by the runner) in native mode"""
+        orig = getattr(owner, name)
+        if self.mode == 'sym':
+            self.I.stubs[orig] = repl
+        else:
+            self._patched.append((owner, name, orig))
+            setattr(owner, name, repl)
+
+    def cleanup(self):
+        for owner, name, orig in reversed(getattr(self, '_patched', [])):
+            setattr(owner, name, orig)
+        self._patched = []
 
     def observe(self, v, label=''):
         self.obs.append(('obs', label, v))
